@@ -12,6 +12,8 @@
 #endif
 #include <sstream>
 #include <unistd.h>
+#include <sys/wait.h>
+#include <sys/resource.h>
 #include <thread>
 
 using occa::verif::live;
@@ -102,6 +104,8 @@ static std::vector<Scenario> scenarios() {
   return v;
 }
 
+int runOne(Scenario *scn, const char *choicesArg);
+
 int main(int argc, char **argv) {
   setvbuf(stdout, NULL, _IOLBF, 0);
   std::vector<Scenario> sc = scenarios();
@@ -113,9 +117,41 @@ int main(int argc, char **argv) {
   Scenario *scn = NULL;
   for (auto &s : sc) if (argv[1] == std::string(s.name)) scn = &s;
   if (!scn) return 2;
+  if (argv[2][0] == '@') {
+    // batch mode: one schedule per line of the file; every schedule runs in a forked child of this
+    // (already initialised, still single-threaded) process, so the start-up cost is paid once
+    FILE *f = fopen(argv[2] + 1, "r");
+    if (!f) return 2;
+    char line[65536];
+    long n = 0;
+    while (fgets(line, sizeof line, f)) {
+      size_t len = strlen(line);
+      while (len && (line[len - 1] == '\n' || line[len - 1] == ' ')) line[--len] = 0;
+      printf("BEGIN %ld\n", n);
+      fflush(stdout);
+      pid_t pid = fork();
+      if (pid == 0) {
+        struct rlimit rl = {8, 9};
+        setrlimit(RLIMIT_CPU, &rl);
+        dup2(1, 2);
+        _exit(runOne(scn, line));
+      }
+      int st = 0;
+      waitpid(pid, &st, 0);
+      int code = WIFEXITED(st) ? WEXITSTATUS(st) : -WTERMSIG(st);
+      printf("\nEND %ld %d\n", n, code);
+      fflush(stdout);
+      ++n;
+    }
+    return 0;
+  }
+  return runOne(scn, argv[2]);
+}
+
+int runOne(Scenario *scn, const char *choicesArg) {
   std::vector<int> prefix;
-  if (std::string(argv[2]) != "-") {
-    std::stringstream ss(argv[2]);
+  if (std::string(choicesArg) != "-") {
+    std::stringstream ss(choicesArg);
     std::string tok;
     while (std::getline(ss, tok, ',')) prefix.push_back(atoi(tok.c_str()));
   }
@@ -148,4 +184,5 @@ int main(int argc, char **argv) {
   printf("ORACLE %s\n", rc ? "fail" : "ok");
   fflush(stdout);
   _exit(rc);   // skip static destructors: the verdict is already out
+  return rc;
 }
